@@ -2,6 +2,7 @@
 Kolmogorov generator to the *product* function with derivatives obtained by complex-step differentiation of the product
 (independent of the library's product rule and of the partial/gradient/hessian methods)."""
 import importlib
+import os
 import itertools
 
 import numpy as np
@@ -86,6 +87,9 @@ class GenOnProductRev(probe.Contract):
         c.sig(self.api, len(v['s']), sg.shape)
 
 
+COND_MAX = float(os.environ.get('VERIF_C19_CONDMAX', '1e9'))
+
+
 class Amuset(probe.Contract):
     freeze = True  # the oracle sees the arguments as they were at call entry; arrays / lists rewritten by the call are reported
     input_prop = P
@@ -127,6 +131,11 @@ class Amuset(probe.Contract):
             if np.any((s <= cut * (1 + 1e-6)) & (s > 1e-10 * s[0])):
                 c.skip('tgedmd_truncation_effective')
                 return
+            if np.any((s > cut) & (s <= 1e-10 * s[0])):
+                # numerically vanishing directions that the requested cut keeps (threshold 0 on rank-deficient transformed data): their
+                # reciprocals are rounding noise - nothing is determined by the data
+                c.skip('tgedmd_numerically_zero_directions_not_cut')
+                return
         if v['max_rank'] != np.inf and v['max_rank'] < min(N, m):
             c.skip('tgedmd_rank_cap_effective')
             return
@@ -135,7 +144,7 @@ class Amuset(probe.Contract):
         cut = (thr * s[0] if rel else thr)
         keep = (s > cut) & (s > 1e-10 * s[0])
         U, s, Vh = U[:, keep], s[keep], Vh[keep]
-        if float(s[0] / s[-1]) > 1e6:
+        if float(s[0] / s[-1]) > COND_MAX:
             c.skip('tgedmd_data_ill_conditioned')
             return
         Sinv = np.diag(1.0 / s)
@@ -169,7 +178,11 @@ class Amuset(probe.Contract):
                 'return=' + str(v['return_option'])]
         srt = wv[np.argsort(-wv)]
         want = srt[:k] if np.isfinite(v['num_eigvals']) else srt
-        tol = 1e-5 * sc * max(1.0, condW) * max(1.0, float(s[0] / s[-1]) * 1e-2)
+        # measured on the unchanged tree up to condition numbers of 1e9 (workload poorly_conditioned): the eigenvalues agree to ~1e-9 sc
+        # (reversible form, exact complex-step gradients in the oracle) resp. ~2e-8 sc (finite-difference Hessian in the oracle),
+        # independent of the condition number of the data; the conditioning of the eigenvectors enters linearly
+        cond = float(s[0] / s[-1])
+        tol = sc * max(1.0, condW) * (max(1e-8, 1e-14 * cond) if rev else 1e-6)
         if not rev:
             # accuracy of the oracle itself: the Hessian of the product is a central difference (h = 1e-4) of complex-step gradients,
             # good to ~1e-8 in absolute terms; generator values that are small only through cancellation inherit that absolute error
@@ -179,6 +192,9 @@ class Amuset(probe.Contract):
             ok, worst = match_multiset(lam, want, tol)
         else:
             ok, worst = match_multiset(lam, srt, tol)
+        if os.environ.get('VERIF_C19_DEBUG'):
+            import sys as _sys
+            print('C19DBG rev=%s cond=%.2e condW=%.2e worst/sc=%.2e tol/sc=%.2e' % (rev, float(s[0] / s[-1]), condW, (worst if worst is not None else np.nan) / sc, tol / sc), file=_sys.stderr)
         c.check(self.api, 'eigenvalues_equal_dense_projected_generator', ok, tags, {'got': lam, 'want': want, 'worst': worst, 'modes': n, 'm': m, 'd': d, 'sigma_shape': list(sigma.shape)}, prop=P)
         c.check(self.api, 'ranks_reported', list(ranks) == [1] + [None] * 0 + list(ranks)[1:] and ranks[0] == 1 and ranks[-1] == 1 and ranks[-2] == len(s), tags, {'ranks': list(ranks), 'kept': len(s)}, prop=P)
         if v['return_option'] == 'eigenfunctionevals' and ok:
